@@ -8,6 +8,6 @@ MC_GetArgs == IF Tier = "quick" THEN {0 - 5, 0 - 2, 0 - 1, 0, 1, 3} ELSE (0 - 6)
 MC_SliceArgs == IF Tier = "quick"
                 THEN {<<None, None, None>>, <<1, None, None>>, <<None, 0 - 1, None>>, <<None, None, 0 - 1>>,
                       <<0 - 3, 7, 2>>, <<3, 0, 0 - 2>>}
-                ELSE {<<a, b, c>> : a \in {None, 0 - 3, 0, 1, 2}, b \in {None, 0 - 1, 0, 2, 7}, c \in {None, 2, 0 - 1, 0 - 2}}
+                ELSE {<<a, b, c>> : a \in {None, 0 - 3, 0, 2}, b \in {None, 0 - 1, 2, 7}, c \in {None, 2, 0 - 1, 0 - 2}}
 MC_MaxOps == IF Tier = "quick" THEN 3 ELSE 4
 =============================================================================
